@@ -230,7 +230,8 @@ def run_grid(ctx, desc, nontrivial):
     tdkw = {} if omit else {"target_data": td}
     if desc["dask"]:
         da = da.chunk({"col": 1, "e": 1})
-        td = td.chunk({"col": 1})
+        if desc["dseed"] % 4 != 1:
+            td = td.chunk({"col": 1})  # (in a quarter of the lazy cases the target_data stays in memory next to lazy data)
     tdv = np.array(td.values)
     keep = (data.copy(), tdv.copy(), b.copy())
     warm = (not omit) and desc["dseed"] % 2 == 1
@@ -241,7 +242,18 @@ def run_grid(ctx, desc, nontrivial):
             other = td.roll(col=1, roll_coords=False) if ncol > 1 else td[..., ::-1]
             other = (other * 2 + 1).rename(td.name)
             with dask.config.set(scheduler=desc["dask"] or "synchronous"):
-                g.transform(da, "Z", target, method="conservative", target_data=other).compute()
+                r_other = g.transform(da, "Z", target, method="conservative", target_data=other)
+                alone = r_other.compute()
+                if desc["dask"]:
+                    # ... and the two lazy results evaluated in one computation (a loop over time steps, then one compute)
+                    # are what they are when evaluated one by one
+                    r_main = g.transform(da, "Z", target, method="conservative", **tdkw)
+                    j_other, j_main = dask.compute(r_other, r_main)
+                    ctx.judged(("joint-compute", on_center, desc["dask"]), True)
+                    if not (np.array_equal(j_other.values, alone.values, equal_nan=True) and np.array_equal(j_main.values, r_main.compute().values, equal_nan=True)):
+                        ctx.violation("columns-independent", "two conservative transforms of the same data against target_data of the same name and shape but other values: "
+                                                             "evaluated in one dask computation they differ from their separate evaluations")
+                        return
         except Exception:
             ctx.count("warm_up_call_raised")
     try:
